@@ -21,8 +21,11 @@ import (
 type Seen struct {
 	Obs Obs    `json:"obs"`
 	N   int    `json:"n"`   // how many times
-	Ctx string `json:"ctx"` // first context it was seen in (iso/emb/procN + source)
+	Ctx string `json:"ctx"` // first context it was seen in (iso/emb, procN:iso, ...)
 	Src string `json:"src"` // source file that produced it first
+	// In counts the observations per kind of context: "iso" (alone in a file)
+	// and "emb0".."emb3" (the four ways of embedding), whatever the process
+	In map[string]int `json:"in"`
 }
 
 // CaseObs collects the outcomes for one case.
@@ -60,11 +63,17 @@ func (o *Observations) addLocked(id, meaning string, ob Obs, n int, ctx, src str
 		co.ByMeaning[meaning] = mm
 	}
 	k := ob.Key()
-	if s := mm[k]; s != nil {
-		s.N += n
-	} else {
-		mm[k] = &Seen{Obs: ob, N: n, Ctx: ctx, Src: src}
+	kind := ctx // iso | emb0..emb3 (the wrapper), whatever the process
+	if i := strings.LastIndex(ctx, ":"); i >= 0 {
+		kind = ctx[i+1:]
 	}
+	s := mm[k]
+	if s == nil {
+		s = &Seen{Obs: ob, Ctx: ctx, Src: src, In: map[string]int{}}
+		mm[k] = s
+	}
+	s.N += n
+	s.In[kind] += n
 	o.MsgObs += int64(n)
 }
 
@@ -89,7 +98,9 @@ func (o *Observations) Merge(c *Observations, label string) {
 	for id, co := range c.M {
 		for mn, mm := range co.ByMeaning {
 			for _, s := range mm {
-				o.addLocked(id, mn, s.Obs, s.N, label+":"+s.Ctx, s.Src)
+				for kind, n := range s.In {
+					o.addLocked(id, mn, s.Obs, n, label+":"+kind, s.Src)
+				}
 			}
 		}
 		if len(co.Errors) > 0 {
@@ -304,7 +315,7 @@ func ObserveAll(cases []*MsgCase, plan Plan) *Observations {
 					for j, c := range chunk {
 						for _, d := range []string{descs[j], descs[j] + "|dup"} {
 							if o, ok := m[d]; ok {
-								obs.add(c.ID, "", o, "emb", src)
+								obs.add(c.ID, "", o, fmt.Sprintf("emb%d", (j+rep)%4), src)
 							}
 						}
 					}
